@@ -9,6 +9,7 @@ ap.add_argument("--dir", default="seeded_raw")
 ap.add_argument("--own", action="store_true", help="only the seed's own property check")
 ap.add_argument("--jobs", type=int, default=14)
 ap.add_argument("--seeds", default="")
+ap.add_argument("--fast", action="store_true", help="own check first; the other relevant checks only while nothing has reported")
 a = ap.parse_args()
 man = json.load(open(os.path.join(VERIF, "MANIFEST.json")))
 ALL = [c["property_id"] for c in man["checks"]]
@@ -26,9 +27,14 @@ def work(patch):
         r = subprocess.run(["patch", "-p1", "-s", "-f", "-i", patch], cwd=d, capture_output=True, text=True)
         if r.returncode != 0:
             return pid, mk, "CONFLICT", [], []
-        checks = [pid] if a.own else ALL
+        sys.path.insert(0, os.path.join(VERIF, "tools"))
+        from relevance import relevant
+        rel = relevant(patch, ALL)
+        checks = [pid] if a.own else ([pid] + [c for c in rel if c != pid])
         hits, errs = [], []
         for c in checks:
+            if a.fast and hits:
+                break
             o = subprocess.run([os.path.join(VERIF, "check"), c, "--no-evidence", "--root", d], capture_output=True, text=True, cwd=VERIF)
             if o.returncode == 1 and "VIOLATION" in o.stdout:
                 hits.append(c)
